@@ -98,4 +98,8 @@ func (idGenerator *IDGenerator) updateOffset() {
 func (idGenerator *IDGenerator) setOffset(newoffset int64) {
 	idGenerator.offset = newoffset
 	idGenerator.offset = idGenerator.offset % idGenerator.valueRange
+	if idGenerator.offset < 0 {
+		// the remainder of a negative start keeps its sign; fold it back into [0, valueRange)
+		idGenerator.offset += idGenerator.valueRange
+	}
 }
